@@ -4,7 +4,7 @@ and every hand-written sensitivity target (scratch worktrees, never /repo) and
 writes sensitivity_report.json: violating runs out of runs explored per target."""
 import glob, json, os, re, subprocess, sys, tempfile, time
 
-BASE = "/verif"
+BASE = os.path.dirname(os.path.dirname(os.path.abspath(__file__)))
 out = {}
 targets = []
 for p in sorted(glob.glob(f"{BASE}/seeded/*/patch.diff")):
